@@ -151,6 +151,8 @@ def ref_step(pool, op):
 
 # ---------------------------------------------------------------------------------------------------------
 def _pt(rng, scale):
+    if scale is None:       # integer-valued history (vertex arrays of dtype int64)
+        return [float(rng.randint(-8, 8)) for _ in range(3)]
     return [rng.randint(-8, 8) / 2 * scale for _ in range(3)]
 
 
@@ -159,7 +161,10 @@ def _new_op(rng, scale, nmax=7, closed=None):
     v = [_pt(rng, scale) for _ in range(n)]
     if n >= 2 and rng.random() < 0.25:
         v[rng.randrange(n)] = list(v[rng.randrange(n)])  # repeated vertex
-    return {"op": "new", "v": v, "closed": rng.random() < 0.5 if closed is None else closed}
+    op = {"op": "new", "v": v, "closed": rng.random() < 0.5 if closed is None else closed}
+    if scale is None:
+        op["int"] = True
+    return op
 
 
 def _dot0_ok(e, w):
@@ -276,16 +281,32 @@ def _gen_op(rng, pool, scale, malformed):
     raise AssertionError(k)
 
 
-def _history(rng, tier, malformed, length):
+def _history(rng, tier, malformed, length, integer=False, same_object=False):
     scale = 2.0 ** rng.randint(-10, 10) if tier != "thorough" else 2.0 ** rng.randint(-30, 30)
+    if integer:
+        scale = None
     ops = [_new_op(rng, scale)]
-    if rng.random() < 0.6:
+    if same_object:
+        while len(ops[0]["v"]) < 2:
+            ops = [_new_op(rng, scale)]
+    elif rng.random() < 0.6:
         ops.append(_new_op(rng, scale))
     pool = []
     for o in ops:
         pool.extend(ref_step(pool, o)[1])
-    for _ in range(length):
-        o = _gen_op(rng, pool, scale, malformed and rng.random() < 0.5)
+    for step in range(length):
+        # same_object: every call is made on the first Polyline object, edits interleaved with queries
+        o = _gen_op(rng, pool[:1] if same_object else pool, scale, malformed and rng.random() < 0.5)
+        if same_object:
+            if o["op"] == "new":
+                o = {"op": "len", "a": 0}
+            if step % 2 == 1:
+                q = rng.choice(["observe", "len", "bbox", "index_of", "apex"])
+                v0 = pool[0][0]
+                o = {"observe": {"op": "flipped_if", "a": 0, "c": False}, "len": {"op": "len", "a": 0},
+                     "bbox": {"op": "bbox", "a": 0},
+                     "index_of": {"op": "index_of", "a": 0, "p": list(v0[rng.randrange(len(v0))])},
+                     "apex": {"op": "apex", "a": 0, "axis": [float(rng.randint(-3, 3)) for _ in range(3)]}}[q]
         ops.append(o)
         try:
             pool.extend(ref_step(pool, o)[1])
@@ -329,12 +350,17 @@ def gen_cases(rng, n, tier):
         cases.append({"kind": "exhaustive_slice_section", "ops": ops})
     while len(cases) < n:
         u = rng.random()
-        if u < 0.72:
+        if u < 0.62:
             cases.append({"kind": "history", "ops": _history(rng, tier, False, rng.randint(1, 6))})
-        elif u < 0.86:
+        elif u < 0.78:
             cases.append({"kind": "history_long", "ops": _history(rng, tier, False, rng.randint(7, 12))})
-        else:
+        elif u < 0.93:
             cases.append({"kind": "history_undefined_ops", "ops": _history(rng, tier, True, rng.randint(1, 6))})
+        elif u < 0.96:
+            cases.append({"kind": "history_int64_vertices", "ops": _history(rng, tier, False, rng.randint(2, 8), integer=True)})
+        else:
+            cases.append({"kind": "same_object_edits_and_queries",
+                          "ops": _history(rng, tier, False, rng.randint(6, 14), integer=rng.random() < 0.3, same_object=True)})
     return cases
 
 
@@ -354,7 +380,7 @@ def _value_checks(pl):
         bad.append("v is writeable")
     if pl.e.flags.writeable:
         bad.append("e is writeable")
-    if pl.v.dtype != np.float64 or pl.v.ndim != 2 or pl.v.shape[1] != 3:
+    if pl.v.dtype not in (np.float64, np.int64) or pl.v.ndim != 2 or pl.v.shape[1] != 3:
         bad.append("v has dtype/shape %s %s" % (pl.v.dtype, pl.v.shape))
     if pl.e.dtype != np.int64 or pl.e.ndim != 2 or pl.e.shape[1] != 2:
         bad.append("e has dtype/shape %s %s" % (pl.e.dtype, pl.e.shape))
@@ -371,10 +397,50 @@ def _value_checks(pl):
     return bad
 
 
+def _quick(p, op):
+    """one call, JSON-able result (same layout as run_impl's "res")"""
+    k = op["op"]
+
+    def go():
+        if k == "flipped":
+            return {"poly": _obs_poly(p.flipped())}
+        if k == "flipped_if":
+            return {"poly": _obs_poly(p.flipped_if(op["c"]))}
+        if k == "rolled":
+            r, emap = p.rolled(op["k"], ret_edge_mapping=True)
+            return {"poly": _obs_poly(r), "emap": [int(x) for x in emap]}
+        if k == "sliced":
+            return {"poly": _obs_poly(p.sliced_at_indices(op["start"], op["stop"]))}
+        if k == "sectioned":
+            return {"polys": [_obs_poly(x) for x in p.sectioned(np.array(op["bps"], dtype=np.int64), copy_vs=op["copy"])]}
+        if k == "insert":
+            r, om, im = p.with_insertions(np.array(op["pts"], dtype=np.float64).reshape(-1, 3),
+                                          np.array(op["idx"], dtype=np.int64), ret_new_indices=True)
+            return {"poly": _obs_poly(r), "orig": [int(x) for x in om], "ins": [int(x) for x in im]}
+        if k == "index_of":
+            return {"index": int(p.index_of_vertex(np.array(op["p"])))}
+        if k == "aligned":
+            with np.errstate(all="ignore"):
+                return {"poly": _obs_poly(p.aligned_with(np.array(op["v"])))}
+        if k == "apex":
+            return {"point": p.apex(np.array(op["axis"])).tolist()}
+        if k == "bbox":
+            b = p.bounding_box
+            return {"box": None if b is None else [np.asarray(b.origin).tolist(), np.asarray(b.size).tolist()]}
+        if k == "len":
+            return {"len": [len(p), int(p.num_v), int(p.num_e)]}
+        raise AssertionError(k)
+
+    try:
+        return go()
+    except Exception as e:  # noqa
+        return {"raise": exn_name(e)}
+
+
 def run_impl(c):
     from polliwog import Polyline
 
-    pool, out, ref_pool = [], [], []
+    pool, out, ref_pool, recipes = [], [], [], {}
     for op in c["ops"]:
         k = op["op"]
         rec = {"complaints": []}
@@ -394,16 +460,17 @@ def run_impl(c):
         news = []
         try:
             if k == "new":
-                src = np.array(op["v"], dtype=np.float64).reshape(-1, 3)
+                src = np.array(op["v"], dtype=np.int64 if op.get("int") else np.float64).reshape(-1, 3)
                 keep = src.copy()
                 pl = Polyline(src, is_closed=op["closed"])
                 if np.shares_memory(pl.v, src):
                     rec["complaints"].append("constructor: v shares memory with the source array")
-                src += 1.0  # the caller's array stays the caller's
+                src += 1  # the caller's array stays the caller's
                 if not np.array_equal(pl.v, keep):
                     rec["complaints"].append("constructor: polyline changed when the source array was modified")
                 rec["res"] = {"poly": _obs_poly(pl)}
                 news = [pl]
+                recipes[len(pool)] = op
             elif k == "join":
                 pl = Polyline.join(*recv, is_closed=op["closed"])
                 rec["res"] = {"poly": _obs_poly(pl)}
@@ -452,6 +519,20 @@ def run_impl(c):
                     rec["res"] = {"len": [len(p), int(p.num_v), int(p.num_e)]}
                 if "res" not in rec:
                     rec["res"] = {"poly": _obs_poly(r)}
+                # the same call once more on the same (possibly long-lived, already queried and edited) object and
+                # on a Polyline freshly built from the same input: all three must agree (caching / aliasing)
+                if op["a"] in recipes:
+                    src_op = recipes[op["a"]]
+                    fresh = Polyline(np.array(src_op["v"], dtype=np.int64 if src_op.get("int") else np.float64).reshape(-1, 3),
+                                     is_closed=src_op["closed"])
+                    again, ffresh = _quick(p, op), _quick(fresh, op)
+                    if again != ffresh:
+                        rec["complaints"].append("%s on a used object differs from a fresh computation: %r vs %r" % (k, again, ffresh))
+                    first = {kk: vv for kk, vv in rec["res"].items() if kk != "segs_ok"}
+                    if again != first:
+                        rec["complaints"].append("%s: a second identical call returns something else: %r vs %r" % (k, again, first))
+                    if _obs_poly(p) != _obs_poly(fresh):
+                        rec["complaints"].append("v / e / is_closed of a used object differ from a freshly built one")
                 if k in ("flipped", "flipped_if", "rolled", "sliced", "insert", "aligned"):
                     news = [r]
                     if r is not p and np.shares_memory(r.v, p.v):
